@@ -7,6 +7,7 @@
 
 mod families;
 mod gen;
+mod gen2;
 mod interp;
 mod ir;
 mod minimise;
@@ -180,7 +181,10 @@ pub fn make_case(seed: u64, prop: &str, fam: &families::Family, index: u64) -> C
         let pos = index % fam.sweep_width;
         let gseed = mix(mix(mix(seed, hash_str(prop)), hash_str(fam.name)), 0x5eed_0000_0000 + group);
         let mut grng = Rng::new(gseed);
-        ((fam.gen)(&mut grng), Some(pos))
+        match fam.gen_at {
+            Some(ga) => (ga(&mut grng, pos), None),
+            None => ((fam.gen)(&mut grng), Some(pos)),
+        }
     } else {
         ((fam.gen)(&mut rng), None)
     };
